@@ -52,6 +52,7 @@ type RunConfig struct {
 	FocusRealTimer bool `json:"focus_real_timer,omitempty"`
 	LateResultPm, ReleasePm, ApiPm, HoldPm int
 	CancelAt       int  `json:"cancel_at,omitempty"`
+	ProofPm        int  `json:"proof_pm,omitempty"`
 }
 
 type Limits struct {
